@@ -188,6 +188,10 @@ class Repo:
             else:
                 raise AnalysisError('anchor %s not found (%d candidates)' % (spec, len(cands)))
         f = Fn(self, key[0], key[1], key[2], self.funcs[key])
+        if not hasattr(self, 'touched'):
+            self.touched = []
+        if key not in self.touched:
+            self.touched.append(key)
         for r in rest:
             f = f.inner(r)
         return f
